@@ -218,6 +218,21 @@ func runEnumCase(c enumCase) *core.Failure {
 	check := func(l model.Leaf) *core.Failure {
 		res := model.Observe(q.Filter(model.BuildClause(model.LeafC(l), in.Kinds())))
 		rows, err := model.Evaluator{F: in}.Filter(model.LeafC(l))
+		// the same leaf where no row is left to decide: on the frame without rows, and as the last
+		// member of an Or whose earlier members already select every row. Whether the clause is an
+		// error depends on the clause and the column's declaration, never on the rows.
+		empty := q.Slice(0, 0).Filter(model.BuildClause(model.LeafC(l), in.Kinds()))
+		sat := q.Filter(qframe.Or(qframe.Filter{Column: "e", Comparator: "isnull"}, qframe.Filter{Column: "e", Comparator: "isnotnull"},
+			model.BuildClause(model.LeafC(l), in.Kinds())))
+		if (empty.Err != nil) != (err != nil) {
+			return core.Failf("%s: Filter %s on the frame without rows: Err=%v, but on the frame with rows the model says error=%v", what, model.LeafC(l), empty.Err, err)
+		}
+		if (sat.Err != nil) != (err != nil) {
+			return core.Failf("%s: Or(isnull, isnotnull, %s): Err=%v, model says error=%v", what, model.LeafC(l), sat.Err, err)
+		}
+		if err == nil && (empty.Len() != 0 || sat.Len() != in.N) {
+			return core.Failf("%s: Filter %s: %d rows from the empty frame, %d of %d rows from the saturated Or", what, model.LeafC(l), empty.Len(), sat.Len(), in.N)
+		}
 		if err != nil {
 			if !res.Err {
 				return core.Failf("%s: Filter %s must be an error (%v)", what, model.LeafC(l), err)
